@@ -187,8 +187,33 @@ def run(ck):
         roots = own or prog.find(PB + "reset", 1)
         wreset, rreach = lib.transitive_writes(prog, roots)
         covered = set()
+
+        def reinitialises(fld, how, ev):
+            """the write gives the field a value that does not depend on what it held: assignment / whole-object assignment of an
+            expression that does not mention the field, clear(), reset(), swap with a fresh object -- not erase / resize / insert /
+            append, and not a swap with (or assignment of) something computed from the field's old contents"""
+            if fld == lib.STREAMBUF_AREA:
+                return True
+            selfref = "f:" + fld
+            if how in ("assign", "whole", "init", "alias-assign", "call:operator="):
+                return selfref not in [r for r in (ev.get("refs") or []) if r != selfref] or \
+                    not any(fld.rsplit("::", 1)[1] in (a_.get("t") or "") for a_ in (ev.get("args") or [])) and \
+                    fld.rsplit("::", 1)[1] not in ((ev.get("rhs") or {}).get("t") or "")
+            if how in ("call:clear", "call:reset"):
+                return True
+            if how == "call:swap":
+                others = [a_ for a_ in (ev.get("args") or [])] + ([ev.get("recv")] if ev.get("recv") else [])
+                for o in others:
+                    v = (o or {}).get("v")
+                    if v:
+                        d = [x for x in ev.func.events("decl") if x.get("var") == v]
+                        if d and selfref in (d[0].get("refs") or []):
+                            return False      # swapped with a local built from the field's old contents
+                return True
+            return False
         for fld, lst in wreset.items():
-            covered.add(fld)
+            if any(reinitialises(fld, how, ev) for how, ev, _c in lst):
+                covered.add(fld)
             for how, ev, _chain in lst:
                 if how == "whole":
                     # class of the assigned member object: resolve through the declaring class' field list
